@@ -318,19 +318,20 @@ theorem var_binding (strong : Bool) (cols : List Col) (vars : List VarSym) (e : 
     least two data rows; a header, if present, of non-numeric non-blank cells; data cells that are
     numbers without letters; no quote and none of the five candidate delimiters `\t , : ; |`
     inside a cell; the delimiter is one of the five and there are at least two columns)
-    the sniffed dialect is the explicit one, so reading with everything left to the sniffer and
-    reading with the explicit dialect are the same computation. -/
-theorem sniff_agrees (o : NumOracle F) (d : Char) (hdr : Option (List Str)) (rows : List (List Str))
-    (h : Unambiguous o d hdr rows) :
-    sniffer o (splitLines (renderPlain d (hdr.toList ++ rows))) = (d, hdr.isSome) :=
-  sniffer_unambiguous o d hdr rows h
+    the sniffed dialect is the explicit one – however many lines `n ≥ 1` the sniffer inspects
+    (the code uses 20) –, so reading with everything left to the sniffer and reading with the
+    explicit dialect are the same computation. -/
+theorem sniff_agrees (o : NumOracle F) (n : Nat) (hn : 1 ≤ n) (d : Char) (hdr : Option (List Str))
+    (rows : List (List Str)) (h : Unambiguous o d hdr rows) :
+    sniffer o n (splitLines (renderPlain d (hdr.toList ++ rows))) = (d, hdr.isSome) :=
+  sniffer_unambiguous o n hn d hdr rows h
 
 theorem sniffed_read_eq_explicit (cfg : Cfg) (o : NumOracle F) (d : Char) (hdr : Option (List Str))
-    (rows : List (List Str)) (h : Unambiguous o d hdr rows) (p : Params)
+    (rows : List (List Str)) (h : Unambiguous o d hdr rows) (p : Params) (hn : 1 ≤ cfg.sniffLines)
     (hp : p.delim = '\x00' ∧ p.header = none) :
     readCsv cfg o p (renderPlain d (hdr.toList ++ rows)) =
     readCsv cfg o { p with delim := d, header := some hdr.isSome } (renderPlain d (hdr.toList ++ rows)) := by
-  have hs := sniffer_unambiguous o d hdr rows h
+  have hs := sniffer_unambiguous o cfg.sniffLines hn d hdr rows h
   have hd0 : d ≠ '\x00' := by
     have := h.delim
     intro hd; subst hd; simp [preferred] at this
